@@ -295,6 +295,10 @@ func runC16(c *gen.Ctx) error {
 	e := c.E
 	// ---- the runner's consumer of the tracer (testResults.fetchTrace)
 	c16ResultsGen(c)
+	// ---- the glue around the slots: the reference client's per-call hand-off, and the
+	// server-side middleware handing over a trace that must be final
+	c16WireGen(c)
+	c16FinalGen(c)
 	// ---- Tracer: every operation order up to maxLen
 	maxLen := 4
 	peekBudget := 120
